@@ -171,6 +171,80 @@ func CellQuantity(an *ir.Analysis, addr *ir.Term) Quantity {
 	}
 }
 
+// PhiQuantity tracks the loop-carried register phi of header h; before the loop its value is init.
+func PhiQuantity(an *ir.Analysis, h *ssa.BasicBlock, phi *ssa.Phi, init *ir.Term) Quantity {
+	sym := func() *ir.Term { return an.Start[h].Reg(phi) }
+	return Quantity{
+		StartSym: func(p *ir.Path) *ir.Term {
+			if p.From == h {
+				return sym()
+			}
+			return init
+		},
+		ValueAt: func(p *ir.Path, i int) *ir.Term {
+			if i >= len(p.Steps) && p.To == h {
+				if v := p.PhiOut[phi]; v != nil {
+					return v
+				}
+			}
+			if p.From == h {
+				return sym()
+			}
+			return init
+		},
+	}
+}
+
+// loopQuantity finds the loop-carried integer of header h whose value on entering the loop is init:
+// a phi of h, or a memory cell. Returns ok=false when there is none (or more than one).
+func loopQuantity(an *ir.Analysis, h *ssa.BasicBlock, init *ir.Term) (Quantity, string, bool) {
+	var found []Quantity
+	var names []string
+	for _, in := range h.Instrs {
+		phi, isPhi := in.(*ssa.Phi)
+		if !isPhi {
+			break
+		}
+		ok := false
+		for _, p := range an.Segs[nil] {
+			if p.To == h && ir.Same(p.PhiOut[phi], init) {
+				ok = true
+			}
+		}
+		if ok {
+			found = append(found, PhiQuantity(an, h, phi, init))
+			names = append(names, "register "+phi.Comment)
+		}
+	}
+	for _, p := range an.Segs[nil] {
+		if p.To != h {
+			continue
+		}
+		p.End.EachMem(func(addr, val *ir.Term) {
+			if addr.Op == "alloc" && ir.Same(val, init) {
+				// the cell must be modified somewhere in the loop, otherwise it is just a copy of the parameter
+				modified := false
+				for _, q := range an.Segs[h] {
+					for _, st := range q.Events(ir.KStore) {
+						if ir.Same(st.A[0], addr) {
+							modified = true
+						}
+					}
+				}
+				if modified {
+					found = append(found, CellQuantity(an, addr))
+					names = append(names, "cell "+addr.Aux)
+				}
+			}
+		})
+		break
+	}
+	if len(found) != 1 {
+		return Quantity{}, fmt.Sprintf("%d candidates %v", len(found), names), false
+	}
+	return found[0], names[0], true
+}
+
 // ConstQuantity tracks an immutable term (e.g. len(param)).
 func ConstQuantity(t *ir.Term) Quantity {
 	return Quantity{StartSym: func(*ir.Path) *ir.Term { return t }, ValueAt: func(*ir.Path, int) *ir.Term { return t }}
